@@ -444,3 +444,75 @@ func heavyPosition(r *Rng) *rc.Board {
 		return b
 	}
 }
+
+// contestedPosition builds a legal position in which one square holds a piece attacked and
+// defended by many pieces of both sides, sliders stacked behind each other on the lines
+// through it (x-ray attackers) and knights: exchange sequences of 16 and more captures.
+func contestedPosition(r *Rng) *rc.Board {
+	dirs := [8][2]int{{1, 0}, {-1, 0}, {0, 1}, {0, -1}, {1, 1}, {1, -1}, {-1, 1}, {-1, -1}}
+	for {
+		b := &rc.Board{Ep: -1, Full: 40 + r.Intn(40), Half: r.Intn(10)}
+		tf, tr := 2+r.Intn(4), 2+r.Intn(4)
+		b.White = r.Chance(0.5)
+		victim := byte('n')
+		if !b.White {
+			victim = 'N'
+		}
+		b.Sq[rc.Sq(tf, tr)] = victim
+		n := 0
+		for di, d := range dirs {
+			k := 1 + r.Intn(3)
+			for step := 1; step <= k; step++ {
+				f, rk := tf+d[0]*step, tr+d[1]*step
+				if f < 0 || f > 7 || rk < 0 || rk > 7 {
+					break
+				}
+				pc := byte('Q')
+				if r.Chance(0.5) {
+					if di < 4 {
+						pc = 'R'
+					} else {
+						pc = 'B'
+					}
+				}
+				if r.Chance(0.5) {
+					pc += 32
+				}
+				b.Sq[rc.Sq(f, rk)] = pc
+				n++
+			}
+		}
+		for _, d := range [][2]int{{1, 2}, {2, 1}, {-1, 2}, {-2, 1}, {1, -2}, {2, -1}, {-1, -2}, {-2, -1}} {
+			f, rk := tf+d[0], tr+d[1]
+			if f < 0 || f > 7 || rk < 0 || rk > 7 || b.Sq[rc.Sq(f, rk)] != 0 || r.Chance(0.4) {
+				continue
+			}
+			pc := byte('N')
+			if r.Chance(0.5) {
+				pc = 'n'
+			}
+			b.Sq[rc.Sq(f, rk)] = pc
+			n++
+		}
+		if n < 16 {
+			continue
+		}
+		// kings on free squares
+		placed := false
+		for try := 0; try < 200 && !placed; try++ {
+			wk, bk := r.Intn(64), r.Intn(64)
+			if wk == bk || b.Sq[wk] != 0 || b.Sq[bk] != 0 || (abs(rc.File(wk)-rc.File(bk)) <= 1 && abs(rc.Rank(wk)-rc.Rank(bk)) <= 1) {
+				continue
+			}
+			nb := *b
+			nb.Sq[wk], nb.Sq[bk] = 'K', 'k'
+			if nb.Validate() == nil && len(nb.Legal()) > 0 {
+				*b = nb
+				placed = true
+			}
+		}
+		if placed {
+			return b
+		}
+	}
+}
